@@ -261,7 +261,12 @@ fn main() {
                 }
                 std::thread::sleep(Duration::from_micros(300));
             }
+            // let the ring drain before the last signals are sent: a commit parked when the thread
+            // exits with a full ring may legitimately be lost
+            wait_cycles(3);
             root.cancel();
+            drop(root);
+            wait_cycles(2);
         }));
     }
 
